@@ -15,6 +15,9 @@ RULE = ('atomically balanced stoichiometries drawn from the null space of the C/
         '(permuted, subset, superset) and malformed inputs (unknown chemical/phase, repeated chemical, missing reactant, '
         'mixed bases, wrong shapes, phase mismatch, infeasible conversions, the 1e-12 clamp window). Compared: constructor '
         'exception class, call exception class, all flows after the call (1e-9 relative), flows left behind by an exception. '
+        'About 30 % of the well-formed cases first run a history of 1-5 operations on COPIES of the members (item / slice item '
+        'copy with and without re-basing, backwards, basis setter and copy/backwards of the derived reactions) before the '
+        'original object is applied; per-step success, the derived reactions and object identity of the arrays are compared too. '
         'non-trivial = the call returned normally and changed a flow, or raised; distinct = distinct case hash')
 ASSUMPTIONS = ['float rounding is not modelled: values compared to 1e-9 relative; inputs are dyadic so branch decisions agree',
                'molecular weights are positive (Chemical replaces a missing MW by 1)']
@@ -240,7 +243,24 @@ def gen_case(rng):
         if mk == 'numpy' and rng.random() < 0.05:
             mat['flows'][rng.randrange(P * N)] = -1.0
     case['material'] = mat
+    if mal is None and not case.get('post_rebase') and rng.random() < 0.3:
+        case['history'] = gen_history(rng, case)
     return case
+
+def gen_history(rng, case):
+    ops = []
+    ids_in = sorted({t[1] for s in case['rxns'] for t in s['terms'] if t[1] in IDS})
+    def reactant(): return rng.choice([None, None] + ids_in)
+    def X(): return rng.choice([None, None, 0.5, 0.25, 1.0])
+    for _ in range(rng.randint(1, 5)):
+        o = rng.choice(['itemcopy', 'itemcopy', 'itemcopy', 'itembackwards', 'setbasis', 'setbasis', 'copy', 'backwards'])
+        i = rng.randrange(64)
+        if o == 'itemcopy': ops.append([o, i, rng.randrange(64), rng.choice([None, 'mol', 'wt', 'wt'])])
+        elif o == 'itembackwards': ops.append([o, i, reactant(), X()])
+        elif o == 'setbasis': ops.append([o, i, rng.choice(['mol', 'wt', 'wt'])])
+        elif o == 'copy': ops.append([o, i, rng.choice([None, 'mol', 'wt'])])
+        else: ops.append([o, i, reactant(), X()])
+    return ops
 
 def window_case(short, two=False, basis='mol'):
     """Ca + Cc' style: co-reactant short of what full conversion needs by 2^-short"""
@@ -270,7 +290,17 @@ SPARSE2 = {'phases': ['g', 'l'], 'kind': 'single',
 OTHER_MULTI = {'phases': ['g', 'l'], 'kind': 'single', 'rxns': SPARSE2['rxns'],
                'material': {'kind': 'other', 'pkg': 'B', 'flows': [0.0, 16.0, 4.0, 0, 0, 0, 0] + [1.0] + [0.0] * 6}}
 
-CORPUS = [window_case(50), window_case(41), window_case(40), window_case(39), window_case(30), window_case(41, two=True),
+HIST = {'phases': [], 'kind': 'parallel',
+        'rxns': [{'terms': [[None, 'Cf', -2.0], [None, 'Cc', -1.0], [None, 'Ce', 2.0]], 'form': 'str', 'omit1': True,
+                  'reactant': 'Cf', 'X': 0.5, 'basis': 'mol', 'rebase': None, 'balanced': True},
+                 {'terms': [[None, 'Ca', -1.0], [None, 'Cc', -2.0], [None, 'Cd', 1.0], [None, 'Ce', 2.0]], 'form': 'str',
+                  'omit1': True, 'reactant': 'Ca', 'X': 0.25, 'basis': 'mol', 'rebase': None, 'balanced': True}],
+        'material': {'kind': 'stream', 'flows': [4.0, 0.0, 256.0, 0.0, 1.0, 8.0, 0.0, 0.0]},
+        'history': [['itemcopy', 0, 0, 'wt'], ['itemcopy', 1, 1, 'wt'], ['itemcopy', 1, 0, None], ['setbasis', 2, 'wt'],
+                    ['itembackwards', 0, None, None], ['backwards', 0, 'Ce', 0.5]]}
+HIST_SERIES = dict(HIST, kind='series')
+
+CORPUS = [HIST, HIST_SERIES, window_case(50), window_case(41), window_case(40), window_case(39), window_case(30), window_case(41, two=True),
           window_case(42, two=True), window_case(45, basis='wt'), window_case(41, basis='wt'),
           WIT_MULTI, SPARSE2, OTHER_MULTI]
 WITNESSES = [{'key': 'C05:phaseless-reaction-on-multistream', 'case': WIT_MULTI}]
@@ -303,21 +333,106 @@ def build_rxn(case, spec):
         r = r.copy(spec['rebase'])
     return r
 
-def build_obj(case):
+def flat_ridx(r, P):
+    if r._phases:
+        p, j = r._reactant_index
+        return int(p) * N + int(j)
+    return int(r._reactant_index)
+
+def snap(r):
+    st = np.asarray(r._stoichiometry.to_array(), float).reshape(-1)
+    return {'st': [fr_json(frac(x)) for x in st], 'ridx': flat_ridx(r, 0), 'X': fr_json(frac(r.X)),
+            'wt': r._basis == 'wt', 'phases': [PH[p] for p in r._phases]}
+
+def resolve_reactant(r, ident):
+    """flat index Reaction.backwards(reactant=ident) selects"""
+    j = IDS.index(ident)
+    if r._phases:
+        col = np.asarray(r._stoichiometry.to_array(), float)[:, j]
+        p = len(col) - 1
+        for k, x in enumerate(col):
+            if x:
+                p = k
+                break
+        return p * N + j
+    return j
+
+def apply_history(case, sets, log):
+    """sets: list of (object, [flat member numbers]) in member order.  Every step obtains its handle afresh from the set
+    (indexing / slicing), operates on copies only, and appends what it returns to `derived`."""
+    where = {}
+    for obj, idx in sets:
+        for i, m in enumerate(idx):
+            where[m] = (obj, i, idx[0])
+    n = len(where)
+    derived = []
+    for op in case.get('history', []):
+        name = op[0]
+        if name in ('setbasis', 'copy', 'backwards') and not derived:
+            op = ['itemcopy', op[1], 0, None]; name = 'itemcopy'
+        try:
+            if name == 'itemcopy':
+                m = op[1] % n; obj, i, off = where[m]
+                if isinstance(obj, env()['tmo'].Reaction):
+                    res = ['itemcopy', m, 0, op[3]]; handle = obj
+                else:
+                    lo = op[2] % (i + 1)
+                    res = ['itemcopy', off + lo, i - lo, op[3]]
+                    handle = obj[lo:][i - lo] if lo else obj[i]
+                log['ops'].append(res)
+                new = handle.copy(op[3])
+                if new._stoichiometry is handle._stoichiometry: log['alias'] = True
+                derived.append(new)
+            elif name == 'itembackwards':
+                m = op[1] % n; obj, i, off = where[m]
+                handle = obj if isinstance(obj, env()['tmo'].Reaction) else obj[i]
+                log['ops'].append(['itembackwards', m, None if op[2] is None else resolve_reactant(handle, op[2]), op[3]])
+                new = handle.backwards(reactant=op[2], X=op[3])
+                if new._stoichiometry is handle._stoichiometry: log['alias'] = True
+                derived.append(new)
+            elif name == 'setbasis':
+                j = op[1] % len(derived)
+                log['ops'].append(['setbasis', j, op[2]])
+                derived[j].basis = op[2]
+            elif name == 'copy':
+                j = op[1] % len(derived)
+                log['ops'].append(['copy', j, op[2]])
+                derived.append(derived[j].copy(op[2]))
+            elif name == 'backwards':
+                j = op[1] % len(derived)
+                log['ops'].append(['backwards', j, None if op[2] is None else resolve_reactant(derived[j], op[2]), op[3]])
+                derived.append(derived[j].backwards(reactant=op[2], X=op[3]))
+            else:
+                raise ValueError(name)
+            log['oks'].append(True)
+        except Exception as ex:
+            log['oks'].append(False)
+            log.setdefault('errors', []).append(type(ex).__name__)
+    log['derived'] = [snap(d) for d in derived]
+
+def build_obj(case, log=None):
     tmo = env()['tmo']
+    if log is None: log = {}
+    log.update(ops=[], oks=[], derived=[])
     rs = [build_rxn(case, s) for s in case['rxns']]
     k = case['kind']
-    if k == 'single': return rs[0]
-    if k == 'parallel': return tmo.ParallelReaction(rs)
-    if k == 'series': return tmo.SeriesReaction(rs)
-    parts = []
-    for pk, idx in case['parts']:
-        sub = [rs[i] for i in idx]
-        parts.append(sub[0] if pk == 'single' else (tmo.ParallelReaction(sub) if pk == 'parallel' else tmo.SeriesReaction(sub)))
-    obj = tmo.ReactionSystem(*parts)
-    if case.get('post_rebase'):
-        i, b = case['post_rebase']
-        parts[i].basis = b
+    if k == 'single':
+        obj = rs[0]; sets = [(obj, [0])]
+    elif k in ('parallel', 'series'):
+        obj = tmo.ParallelReaction(rs) if k == 'parallel' else tmo.SeriesReaction(rs)
+        sets = [(obj, list(range(len(rs))))]
+    else:
+        parts, sets = [], []
+        for pk, idx in case['parts']:
+            sub = [rs[i] for i in idx]
+            parts.append(sub[0] if pk == 'single' else (tmo.ParallelReaction(sub) if pk == 'parallel' else tmo.SeriesReaction(sub)))
+            sets.append((parts[-1], idx))
+        obj = tmo.ReactionSystem(*parts)
+        if case.get('post_rebase'):
+            i, b = case['post_rebase']
+            parts[i].basis = b
+    if case.get('history'):
+        apply_history(case, sets, log)
     return obj
 
 def make_material(case, flows=None):
@@ -357,11 +472,13 @@ def make_material(case, flows=None):
 def run_impl(case):
     env()
     out = {'ctor_err': None, 'err': None, 'data': []}
+    log = {}
     try:
-        obj = build_obj(case)
+        obj = build_obj(case, log)
     except Exception as ex:
         out['ctor_err'] = errname(ex); out['ctor_cls'] = type(ex).__name__
         return out
+    out['hist'] = log
     mat, read = make_material(case)
     try:
         ret = obj(mat)
@@ -434,9 +551,29 @@ def crun(case):
     else: raise ValueError(kind)
     return f'(fun o => call {pt} {mws} o {mat})'
 
+def csnap(x):
+    return (f'(mkrxn {qlist([F(v) for v in x["st"]])} {cnat(x["ridx"])} {q(F(x["X"]))} {cbool(x["wt"])} '
+            f'{clist(x["phases"], cnat)})')
+
+def chop(o):
+    n = o[0]
+    cb = lambda b: copt(None if b is None else cbool(b == 'wt'))
+    if n == 'itemcopy': return f'(HItemCopy {cnat(o[1])} {cnat(o[2])} {cb(o[3])})'
+    if n == 'itembackwards': return f'(HItemBackwards {cnat(o[1])} {copt(o[2], cnat)} {copt(o[3], q)})'
+    if n == 'setbasis': return f'(HSetBasis {cnat(o[1])} {cbool(o[2] == "wt")})'
+    if n == 'copy': return f'(HCopy {cnat(o[1])} {cb(o[2])})'
+    if n == 'backwards': return f'(HBackwards {cnat(o[1])} {copt(o[2], cnat)} {copt(o[3], q)})'
+    raise ValueError(n)
+
 def coq_case(case, out):
     d = qlist([F(x) for x in out['data']])
-    return (f'(case_eqb {cbool(case["material"]["kind"] == "other")} {cobj(case)} {crun(case)} '
+    other = cbool(case["material"]["kind"] == "other")
+    if case.get('history'):
+        h = out.get('hist', {'ops': [], 'oks': [], 'derived': []})
+        return (f'(hist_case_eqb {other} {mws_term(case)} {cobj(case)} {clist([chop(o) for o in h["ops"]])} '
+                f'{clist(h["oks"], cbool)} {clist([csnap(x) for x in h["derived"]])} {crun(case)} '
+                f'{cerr(out["ctor_err"])} {cerr(out["err"])} {d})')
+    return (f'(case_eqb {other} {cobj(case)} {crun(case)} '
             f'{cerr(out["ctor_err"])} {cerr(out["err"])} {d})')
 
 def coq_show(case, out):
@@ -452,6 +589,8 @@ def classify(case, out):
     ks.append('basis:' + (case['rxns'][0]['rebase'] or case['rxns'][0]['basis']))
     for r in case['rxns']:
         ks.append('form:' + r['form'])
+    for o, ok in zip(out.get('hist', {}).get('ops', []), out.get('hist', {}).get('oks', [])):
+        ks.append(f'history:{o[0]}:{"ok" if ok else "raise"}')
     if out.get('ctor_err'): ks.append('ctor_error:' + out.get('ctor_cls', '?'))
     elif out.get('err'): ks.append('call_error:' + out.get('err_cls', '?'))
     else:
@@ -528,8 +667,9 @@ def oracle(case):
     if rs is None: return None                      # a constructor error is the expected outcome
     if case['kind'] != 'single' and len({(s['rebase'] or s['basis']) for s in case['rxns']}) > 1: return None
     if case.get('post_rebase'): return None         # a RuntimeError is the documented outcome
+    log = {}
     try:
-        obj = build_obj(case)
+        obj = build_obj(case, log)
     except Exception as ex:
         return f'construct: well-formed reaction rejected with {type(ex).__name__}: {ex}'
     basis = case['rxns'][0]['rebase'] or case['rxns'][0]['basis']
@@ -635,6 +775,8 @@ def oracle(case):
         except Exception as ex:
             if type(ex).__name__ != 'InfeasibleRegion' or neg == 0:
                 return f'basis: {basis} basis returned normally, {other} basis raised {type(ex).__name__}: {ex}'
+    if log.get('alias'):
+        return 'alias: the copy of a set member shares its stoichiometry array with the set'
     return None
 
 def finding_key(case, msg):
